@@ -22,7 +22,9 @@ MIN_COUNTERS = {'quick': {'states_checked': 150, 'fresh_twin_matches': 150, 'pri
 BUDGET = {'quick': (600, 1500), 'thorough': (1800, 3600)}
 TECHNIQUE = 'runtime monitoring: history monitor; exports compared with the public projection computed by an independent parser; secret-octet scan; refusal matrix'
 
-SHAPES = [('ed25519_1', 'ecdh_p256_1+kdf10.9'), ('ecdsa_p384_0', 'cv25519_1+kdf9.8'), ('ed25519_0', 'cv25519_0'), ('rsa1024_0', 'rsa1024_1'), ('ecdsa_p256_0', 'ecdh_p256_0'), ('dsa1024_0', 'ed25519_1'), ('ecdsa_k256_0', 'ecdh_k256_0'), ('rsa2048_0', None)]
+SHAPES = [('ed25519_1', 'ecdh_p256_1+kdf10.9'), ('ecdsa_p384_0', 'cv25519_1+kdf9.8'), ('ed25519_0', 'cv25519_0'), ('rsa1024_0', 'rsa1024_1'), ('ecdsa_p256_0', 'ecdh_p256_0'), ('dsa1024_0', 'ed25519_1'), ('ecdsa_k256_0', 'ecdh_k256_0'), ('rsa2048_0', None),
+          # public points whose coordinates both begin with a zero octet (one P-521 key in four): the width is that of the curve, not of the value
+          ('ecdsa_p521_short', 'ecdh_p521_short'), ('ecdsa_p256_short', 'ecdh_p521_short')]
 OPS = ['add_uid', 'add_ua', 'add_subkey', 'third_party', 'revoke_uid', 'revoke_subkey', 'revoke_key', 'direct', 'del_uid', 'recertify', 'protect', 'nonexportable', 'lapsed_cert']
 
 
